@@ -34,6 +34,10 @@ func (g *IG) callArgs(n int) []ssa.Value {
 // result). Looks through Extract and type-only conversions.
 func (m *Module) resultOf(v ssa.Value, fn *ssa.Function, idx int) (*ssa.Call, bool) {
 	v = through(v)
+	if isIntegral(v.Type()) {
+		// an integer result passed through a width-preserving or widening conversion
+		v = through(stripConv(v))
+	}
 	if ex, ok := v.(*ssa.Extract); ok {
 		if call, ok := ex.Tuple.(*ssa.Call); ok && m.callee(call.Common()) == fn && (idx < 0 || ex.Index == idx) {
 			return call, true
